@@ -5,8 +5,8 @@ from vverif.core import Result, HarnessError
 
 LEVEL = 'model_checking'
 BOUND_Q = ('rule lists: 0..2 rules x 1..2 possibly negated leaves (8 behaviours each), 2 rules sharing 2 leaves, 3 one-leaf '
-           'rules (6 behaviours), 1 rule with an all-of/any-of group (4 behaviours); two-check interleavings up to 8 lookups')
-BOUND_T = ('quick bound + 3 one-leaf rules (8 behaviours), 3 rules x 1..2 leaves (4 behaviours), group lists with 8 '
+           'rules (6 behaviours), 1 rule with an all-of/any-of group (6 behaviours); two-check interleavings up to 8 lookups')
+BOUND_T = ('quick bound + 3 one-leaf rules (8 behaviours), 3 rules x 1..2 leaves (5 behaviours), group lists with 8 '
            'behaviours, 2-rule lists with a group (4 behaviours); two-check interleavings up to 8 lookups')
 RULE = ('configurations are written as squid.conf lines and parsed by the real parser; leaf behaviours: T, F (immediate), '
         'AT, AF (goAsync, lookup completes later), ST, SF (lookup completes inside the starter), 2T, 2F (two consecutive '
